@@ -464,6 +464,35 @@ pub fn eval_mux(c: &MuxCase) -> Outcome {
             o.class(&format!("output_to:{}", special_output));
         }
     }
+    // path spellings: the child's working directory is the case directory, so the same files can be named relatively
+    // (bare file name, ./name, through a sub-directory and back) - for the output and, independently, for the inputs
+    if c.invalid == 0 && special_output.is_empty() {
+        let style = (c.frame_size / 2) % 8;
+        let spell = |name: &str, k: u16| -> String {
+            match k {
+                1 => name.to_string(),
+                2 => format!("./{}", name),
+                _ => {
+                    let _ = std::fs::create_dir_all(dir.join("sub"));
+                    format!("sub/../{}", name)
+                }
+            }
+        };
+        if (1..=3).contains(&style) || style == 7 {
+            if let Some(i) = args.iter().position(|a| a == "--output") {
+                args[i + 1] = spell("out.mp4", if style == 7 { 1 } else { style });
+                o.class("relative_output_path");
+            }
+        }
+        if (4..=7).contains(&style) {
+            for (flag, name) in [("--video", "video.hex"), ("--audio", "audio.hex")] {
+                if let Some(i) = args.iter().position(|a| a == flag) {
+                    args[i + 1] = spell(name, if style == 7 { 1 } else { style - 3 });
+                }
+            }
+            o.class("relative_input_paths");
+        }
+    }
     // a fifth of the valid cases read the video input from a pipe (/dev/stdin): a readable input that can be read only once
     let piped = c.invalid == 0 && c.frame_size % 5 == 3 && std::path::Path::new("/dev/stdin").exists();
     if piped {
@@ -582,11 +611,13 @@ fn mux_strategy(invalid: bool) -> BoxedStrategy<MuxCase> {
             prop_oneof![
                 4 => "[a-zA-Z0-9 ]{0,20}",
                 2 => "[^\\x00-]{0,12}".prop_filter("no leading dash", |s: &String| !s.starts_with('-')),
+                // long titles of mixed character widths (a log line or a fixed-size field may cut them at a byte offset)
+                2 => "[a-zA-Z ]{0,3}[^\\x00-]{20,120}".prop_filter("no leading dash", |s: &String| !s.starts_with('-')),
                 // values a shell-minded wrapper might "clean up": surrounding quotes, surrounding blanks, an equals sign, a trailing backslash
-                1 => proptest::sample::select(vec!["\"Heroes\"", "'single'", "\"\"", "''", " padded ", "a=b", "back\\", "\"unbalanced", "$HOME", "%s%n"]).prop_map(|s| s.to_string()),
+                1 => proptest::sample::select(vec!["\"Heroes\"", "'single'", "\"\"", "''", " padded ", "a=b", "back\\", "\"unbalanced", "$HOME", "%s%n", "line end\n", "crlf end\r\n", "cr end\r", "tab end\t"]).prop_map(|s| s.to_string()),
             ],
         ),
-        proptest::option::weighted(0.4, prop_oneof![3 => "[a-z]{3}", 1 => "[a-zA-Z]{1,5}"]),
+        proptest::option::weighted(0.4, prop_oneof![3 => "[a-z]{3}", 1 => "[a-zA-Z]{1,5}", 2 => proptest::sample::select(vec!["ger", "fre", "dut", "cze", "gre", "chi", "per", "rum", "slo", "wel", "baq", "arm", "geo", "ice", "mac", "mao", "may", "tib", "alb", "bur", "scc", "scr", "mol"]).prop_map(|s| s.to_string())]),
         (any::<bool>(), any::<bool>(), any::<bool>()),
         any::<u8>(),
         1u16..60,
